@@ -3,6 +3,7 @@ histories, cat / lazy_stack, the C02 shape ops on holders, update / clone / to_d
 Ground truth: a numpy object array of payload ids, moved by numpy / a torch index proxy."""
 from __future__ import annotations
 
+import copy
 import os
 import pickle
 import shutil
@@ -67,7 +68,7 @@ def advanced_reads(run):
             if not item.any():
                 item[0] = True
         idx = tuple([slice(None)] * d + [item])
-        td = N.holder(spec, shape)
+        td = N.holder(spec, shape, N.pick_device(run.rng))
         case = {"spec": str(spec), "index": f"dim {d}: {kind} {item.tolist() if hasattr(item, 'tolist') else list(item)}"}
         run.case(("adv", str(spec), case["index"]), nontrivial=has_stack(spec))
         pidx = tuple(torch.tensor(list(i)) if isinstance(i, range) else i for i in idx)
@@ -118,7 +119,7 @@ def writes(run):
         constant_start = run.rng.random() < 0.6
         a = N.gen_array(run.rng, shape, constant=constant_start)
         spec = N.represent(a, run.rng, p_shared=0.9)
-        td = N.holder(spec, shape)
+        td = N.holder(spec, shape, N.pick_device(run.rng))
         history = []
         ok = True
         for step in range(run.rng.randint(1, 4)):
@@ -139,7 +140,7 @@ def writes(run):
             else:
                 v = N.gen_array(run.rng, vshape)
             vspec = N.represent(v, run.rng, p_shared=0.7)
-            tv = N.holder(vspec, vshape)
+            tv = N.holder(vspec, vshape, N.pick_device(run.rng))
             history.append({"index": repr(idx), "value": str(vspec)})
             case = {"start": str(spec), "history": list(history)}
             flat = a.reshape(-1).copy()
@@ -180,12 +181,16 @@ def combine_and_shape(run):
             shape, a, spec = gen_case(run)
             rank = len(shape)
             rep = "stack" if has_stack(spec) else "shared"
-            td = N.holder(spec, shape)
+            dev = N.pick_device(run.rng)          # one device per case: tensordicts of different devices cannot be combined
+            td = N.holder(spec, shape, dev)
             ops = [
                 ("clone", lambda t: t.clone(), lambda x: x),
                 ("clone(False)", lambda t: t.clone(False), lambda x: x),
                 ("copy", lambda t: t.copy(), lambda x: x),
                 ("pickle", lambda t: pickle.loads(pickle.dumps(t)), lambda x: x),
+                # copies of a tensordict whose non-tensor payloads were moved to shared memory must carry the values
+                ("share+clone", lambda t: t.share_memory_().clone(), lambda x: x),
+                ("share+to_tensordict", lambda t: t.share_memory_().to_tensordict(), lambda x: x),
                 ("to_dict", None, None),
                 ("update", None, None),
                 ("memmap", None, None),
@@ -212,13 +217,19 @@ def combine_and_shape(run):
                     ("gather", None, None),
                     ("cat", None, None), ("lazy_stack", None, None), ("stack+unbind", None, None),
                 ]
+            if rank >= 2:
+                # a reshape that is neither a flatten nor an unflatten of consecutive dims: the batch dims reversed
+                # (only when that is a different shape), e.g. [2, 3] -> [3, 2]
+                rev = list(reversed(shape))
+                if rev != shape:
+                    ops += [("reshape-nd", lambda t, rev=rev: t.reshape(*rev), lambda x, rev=rev: x.reshape(rev))] * 2
             name, f, g = run.rng.choice(ops)
             case = {"op": name, "spec": str(spec)}
             run.case(("ext", name, str(spec)), nontrivial=has_stack(spec))
             run.count("extended.op", name)
             fp = f"{name}:{rep}"
             if f is not None:
-                check(run, "shape-op" if name not in ("clone", "clone(False)", "copy", "pickle") else "copy", case,
+                check(run, "shape-op" if name not in ("clone", "clone(False)", "copy", "pickle", "share+clone", "share+to_tensordict") else "copy", case,
                       lambda: content(f(td)), nested(g(a)), fp)
             elif name == "to_dict":
                 def todict():
@@ -233,7 +244,7 @@ def combine_and_shape(run):
             elif name == "update":
                 shape2, a2, spec2 = shape, N.gen_array(run.rng, shape), None
                 spec2 = N.represent(a2, run.rng)
-                other = N.holder(spec2, shape)
+                other = N.holder(spec2, shape, dev)
                 case["other"] = str(spec2)
                 check(run, "update", case, lambda: content(td.update(other)), nested(a2), f"update:{rep}->{'stack' if has_stack(spec2) else 'shared'}")
             elif name == "memmap":
@@ -255,7 +266,7 @@ def combine_and_shape(run):
             elif name in ("cat", "lazy_stack", "stack+unbind"):
                 a2 = N.gen_array(run.rng, shape, constant=True if run.rng.random() < 0.5 else None)
                 spec2 = N.represent(a2, run.rng)
-                other = N.holder(spec2, shape)
+                other = N.holder(spec2, shape, dev)
                 d = run.rng.randrange(rank)
                 case["other"] = str(spec2)
                 fp2 = f"{name}:{rep}+{'stack' if has_stack(spec2) else 'shared'}"
@@ -267,3 +278,73 @@ def combine_and_shape(run):
                     check(run, "stack+unbind", case, lambda: content(torch.stack([td, other], d).unbind(d)[1]), nested(a2), fp2)
     finally:
         shutil.rmtree(scratch, ignore_errors=True)
+
+
+# --------------------------------------------------------------------------- copies own their positions
+COPIES = [
+    ("clone", lambda t: t.clone()),
+    ("to_tensordict", lambda t: t.to_tensordict()),
+    ("apply-clone", lambda t: t.apply(lambda x: x.clone())),
+    ("deepcopy", lambda t: copy.deepcopy(t)),
+    ("pickle", lambda t: pickle.loads(pickle.dumps(t))),
+    ("select-clone", lambda t: t.select("a", "x").clone()),
+    ("index-all-clone", lambda t: t[...].clone()),
+]
+
+
+def copy_independence(run):
+    """a (deep) copy owns its positions: an indexed write into the copy changes exactly those positions of the copy and
+    nothing of the original, and the other way round.  Device-less and device="cpu" holders, every representation."""
+    n = 500 if run.tier == "quick" else 4000
+    for _ in range(n):
+        shape = N.gen_shape(run.rng, 3)
+        if not shape:
+            continue
+        a = N.gen_array(run.rng, shape, constant=True if run.rng.random() < 0.3 else None)
+        spec = N.represent(a, run.rng, p_shared=0.5)
+        dev = N.pick_device(run.rng)
+        td = N.holder(spec, shape, dev)
+        cname, cp = run.rng.choice(COPIES)
+        direction = run.rng.choice(["write-copy", "write-original"])
+        if run.rng.random() < 0.5:
+            idx = tuple(run.rng.randrange(k) for k in shape)
+        else:
+            idx = gen_write_index(run.rng, shape)
+        try:
+            pos = N.positions(shape, tuple(torch.tensor(i) if isinstance(i, list) else i for i in idx))
+        except Exception:  # noqa: BLE001
+            continue
+        if pos.numel() == 0:
+            continue
+        vshape = list(pos.shape)
+        used = set(a.reshape(-1))
+        fresh_ids = [i for i in N.IDS if i not in used] or N.IDS
+        v = np.empty(vshape, dtype=object)
+        v[...] = run.rng.choice(fresh_ids)
+        vspec = N.represent(v, run.rng, p_shared=0.7)
+        case = {"copy": cname, "device": str(dev), "spec": str(spec), "direction": direction, "index": repr(idx), "value": str(vspec)}
+        run.case(("copy-independence", cname, str(dev), str(spec), direction, repr(idx)), nontrivial=has_stack(spec))
+        run.count("copy_independence.op", f"{cname}:{'device' if dev else 'no-device'}")
+        fp = f"independence:{cname}:{'device' if dev else 'no-device'}:{'stack' if has_stack(spec) else 'shared'}"
+        try:
+            with time_limit(15):
+                dup = cp(td)
+                target, other = (dup, td) if direction == "write-copy" else (td, dup)
+                target[idx] = N.holder(vspec, vshape, N.pick_device(run.rng))
+                got_target, got_other = content(target), content(other)
+        except TimeoutError:
+            raise
+        except Exception as ex:  # noqa: BLE001
+            run.oracle_fail("copy-independence", case, f"raises {type(ex).__name__}: {str(ex)[:120]}", fingerprint=f"{fp}:raises:{err_class(ex)}")
+            continue
+        flat = a.reshape(-1).copy()
+        flat[pos.numpy().reshape(-1)] = v.reshape(-1)
+        want_target, want_other = nested(flat.reshape(shape)), nested(a)
+        if got_other != want_other:
+            who = "the original" if direction == "write-copy" else "the copy"
+            run.oracle_fail("copy-independence", case, f"the write into {'the copy' if direction == 'write-copy' else 'the original'} changed {who}: "
+                            f"{str(got_other)[:120]} expected {str(want_other)[:120]}", fingerprint=f"{fp}:leak")
+        elif got_target != want_target:
+            run.oracle_fail("copy-independence", case, f"written side reads {str(got_target)[:120]} expected {str(want_target)[:120]}", fingerprint=f"{fp}:content")
+        else:
+            run.oracle_ok("copy-independence")
